@@ -495,7 +495,9 @@ def m_slice_get(I, st, call):
             et = pointee(dt[2][0]) if dt and dt[0] == "adt" and dt[2] else None
             I.nsym += 1
             key = ("h", "elem*%d" % I.nsym)
-            st.cells[key] = TopV(et)
+            eit = I.int_ty(et)
+            # an integer element read through get(): the same kind of value an indexed read yields
+            st.cells[key] = I.fresh_int(st, "elem", eit, info=("elem", s.base, s.off + ix.aff)) if eit is not None else TopV(et)
             out.append((st, mk_option(I, RefV(Place(key), mut), dt)))
         return out
     if isinstance(ix, StructV):
